@@ -167,3 +167,107 @@ Definition run_C12 (s : sexp) : sexp :=
   | Some ops => sList enc_out (drun dinit ops)
   | None => sBad
   end.
+
+(* ================================================================== *)
+(* Extended alphabet (second entry point, run_C12X): the same callable registered again, the default
+   priority, a dispatch whose event is already stopped, a listener that registers a listener while it
+   is being called.  The dispatcher state is the SAME record [dstate], driven by the SAME functions: the
+   lists hold registration indices (one per add_listener call - what Python's lists hold positionally);
+   which callable a registration is, is a table beside it, and every answer is given in callables. *)
+Record xstate := {
+  x_d : dstate;
+  x_call : list (N * N);            (* registration index -> callable id *)
+  x_ncall : N;                      (* next callable id *)
+  x_stops : list (N * bool);        (* callable -> stops propagation when called *)
+  x_regs : list (N * (N * Z))       (* callable -> when called, registers a NEW plain callable for (event, priority) *)
+}.
+Definition xinit : xstate := {| x_d := dinit; x_call := []; x_ncall := 0; x_stops := []; x_regs := [] |}.
+
+Inductive xop :=
+| XOp (o : dop)                                        (* Add = a new callable; Prio ev c = by callable id *)
+| XAddAgain (ev : N) (prio : Z) (c : N)                (* add_listener(ev, <callable c, registered before>, prio) *)
+| XAddDefault (ev : N) (stops : bool)                  (* add_listener(ev, <new callable>) : priority 0 *)
+| XAddRegistrar (ev : N) (prio : Z) (ev2 : N) (prio2 : Z)   (* a new callable that calls add_listener(ev2, <new>, prio2) *)
+| XDispatchStopped (ev : N).                           (* dispatch(ev, event) with event.stop_propagation() done before *)
+
+Definition callable_of (call : list (N * N)) (i : N) : N :=
+  match aget N.eqb i call with Some c => c | None => i end.
+Definition stops_of (s : xstate) (c : N) : bool :=
+  match aget N.eqb c (x_stops s) with Some b => b | None => false end.
+
+(* add_listener(ev, callable c, prio): one more registration *)
+Definition xadd (s : xstate) (ev : N) (prio : Z) (c : N) : xstate :=
+  {| x_d := add_listener (x_d s) ev prio (stops_of s c);
+     x_call := x_call s ++ [(d_next (x_d s), c)];
+     x_ncall := x_ncall s; x_stops := x_stops s; x_regs := x_regs s |}.
+(* a new callable (with its behaviour), registered *)
+Definition xnew (s : xstate) (ev : N) (prio : Z) (stops : bool) (registers : option (N * Z)) : xstate :=
+  let c := x_ncall s in
+  xadd {| x_d := x_d s; x_call := x_call s; x_ncall := N.succ c;
+          x_stops := x_stops s ++ [(c, stops)];
+          x_regs := match registers with Some t => x_regs s ++ [(c, t)] | None => x_regs s end |} ev prio c.
+
+(* what the callables called by one dispatch do to the dispatcher, in call order *)
+Definition xeffects (s : xstate) (called : list N) : xstate :=
+  fold_left (fun s c => match aget N.eqb c (x_regs s) with
+                        | Some (e2, p2) => xnew s e2 p2 false None
+                        | None => s end) called s.
+
+Definition with_d (s : xstate) (d : dstate) : xstate :=
+  {| x_d := d; x_call := x_call s; x_ncall := x_ncall s; x_stops := x_stops s; x_regs := x_regs s |}.
+
+(* dispatch: the list is taken (and cached) first; _do_dispatch walks THAT list object, which a
+   registration made meanwhile does not touch (add_listener only drops the cache entry) *)
+Definition xdispatch (s : xstate) (ev : N) (prestopped : bool) : xstate * dout :=
+  let '(d', l) := get_listeners (x_d s) ev in
+  let called := map (callable_of (x_call s)) (if prestopped then [] else run_until_stop (d_stops (x_d s)) l) in
+  (xeffects (with_d s d') called, OCalled called).
+
+(* get_listener_priority(ev, callable): the first bucket (dict order) holding a registration of that callable *)
+Fixpoint find_prio_c (call : list (N * N)) (g : groups) (c : N) : option Z :=
+  match g with
+  | [] => None
+  | (p, ls) :: r => if existsb (fun i => N.eqb (callable_of call i) c) ls then Some p else find_prio_c call r c
+  end.
+
+Definition xstep (s : xstate) (o : xop) : xstate * dout :=
+  match o with
+  | XOp (Add ev prio stops) => (xnew s ev prio stops None, ONone)
+  | XAddDefault ev stops => (xnew s ev 0%Z stops None, ONone)
+  | XAddRegistrar ev prio ev2 prio2 => (xnew s ev prio false (Some (ev2, prio2)), ONone)
+  | XAddAgain ev prio c => (if (c <? x_ncall s)%N then xadd s ev prio c else s, ONone)
+  | XOp (Dispatch ev) => xdispatch s ev false
+  | XDispatchStopped ev => xdispatch s ev true
+  | XOp (Prio ev c) =>
+    (s, OPrio (match aget N.eqb ev (d_listeners (x_d s)) with Some g => find_prio_c (x_call s) g c | None => None end))
+  | XOp (Get ev) => let '(d', l) := get_listeners (x_d s) ev in (with_d s d', OList (map (callable_of (x_call s)) l))
+  | XOp GetAll =>
+    let '(d', out) := dstep (x_d s) GetAll in
+    (with_d s d', match out with
+                  | OAll m => OAll (map (fun el => (fst el, map (callable_of (x_call s)) (snd el))) m)
+                  | x => x end)
+  | XOp (Has e) => (s, snd (dstep (x_d s) (Has e)))
+  end.
+
+Fixpoint xrun (s : xstate) (ops : list xop) : list dout :=
+  match ops with
+  | [] => []
+  | o :: r => let '(s', out) := xstep s o in out :: xrun s' r
+  end.
+
+Definition dec_xop (s : sexp) : option xop :=
+  match s with
+  | L [A 6%Z; e; p; c] =>
+    match dN e, dZ p, dN c with Some e, Some p, Some c => Some (XAddAgain e p c) | _, _, _ => None end
+  | L [A 7%Z; e; b] => match dN e, dB b with Some e, Some b => Some (XAddDefault e b) | _, _ => None end
+  | L [A 8%Z; e] => option_map XDispatchStopped (dN e)
+  | L [A 9%Z; e; p; e2; p2] =>
+    match dN e, dZ p, dN e2, dZ p2 with
+    | Some e, Some p, Some e2, Some p2 => Some (XAddRegistrar e p e2 p2) | _, _, _, _ => None end
+  | _ => option_map XOp (dec_op s)
+  end.
+Definition run_C12X (s : sexp) : sexp :=
+  match dList dec_xop s with
+  | Some ops => sList enc_out (xrun xinit ops)
+  | None => sBad
+  end.
